@@ -17,6 +17,7 @@ import BB.Properties.C09
 import BB.Proofs.G5Sweep
 import BB.Proofs.G5Repeat
 import BB.Proofs.G5Values
+import BB.Proofs.G10Repeat
 
 namespace BB.C17
 open BB BB.Tools
@@ -615,5 +616,157 @@ example :
 
 /-- mismatched list lengths are rejected with ValueError (non-vacuity of `sweepSteps_mismatch`) -/
 example : (makeVaryingSequence exBase [3, 2, 3, 3] exVars).map (fun _ => ()) = .error .value := by decide +kernel
+
+end BB.C17
+
+/-! ## forged output and consistency of the sweep results (group G10) -/
+
+namespace BB.C17
+open BB BB.Tools BB.Sequence
+
+/-- **the forged output of `repeatAndVarySequence(seq, …)` is the concatenation of the forged varied
+    copies**: let `seq` satisfy the invariant of the public interface (`C16.SeqInv`; `C16.built_inv`)
+    and let `temps[m]` be the `m`-th varied copy of `seq` (`repeatAndVary_spec`, `G5.applyStep_spec`).
+    If every copy forges, `temps[m].forge(d, f, t) = fts[m]`, and there is at least one step, then the
+    returned sequence forges — with the same options — to `fts[0]`, `fts[1]`, … one after the other,
+    the positions of the `m`-th copy re-keyed by `m·len(seq)` and its positive goto / jump targets
+    moved by as much (`C16.shiftPos`); content of every position (arrays, filters, sub-positions) as
+    in the copy.  Clause "repeatAndVarySequence equals the concatenation over m of copies of seq with
+    the m-th values applied", at the level of `forge`. -/
+theorem repeatAndVary_forge (seq : Sequence) (lens : List Nat) (poss : List ℤ) (vars : List Variation) (r : Sequence)
+    (h : repeatAndVarySequence seq lens poss vars = .ok r) (hinv : C16.SeqInv seq) (d f t : Bool) :
+    ∃ (M : ℕ) (temps : List Sequence), sweepSteps lens vars = .ok M ∧ temps.length = M ∧
+      (∀ i (hi : i < temps.length), applyStep i (poss.zip vars) seq.copy = .ok temps[i]) ∧
+      ∀ fts : List (List (ℕ × ForgedPos)), List.Forall₂ (fun tm ft => tm.forge d f t = .ok ft) temps fts → 0 < M →
+        r.forge d f t = .ok (fts.mapIdx (fun m ft => ft.map (C16.shiftPos (m * seq.data.length)))).flatten := by
+  obtain ⟨M, temps, _, hs, hl, hstep, hfold, _⟩ := repeatAndVary_spec seq lens poss vars r h
+  refine ⟨M, temps, hs, hl, hstep, fun fts hf hM => ?_⟩
+  have hcons := G10.foldAdd_consistent_operands temps _ r hfold
+  obtain ⟨σ, hσ⟩ := G10.temps_sig seq (poss.zip vars) temps hstep hcons
+  have hshape : ∀ tm ∈ temps, tm.data.length = seq.data.length ∧ C16.SeqInv tm := by
+    intro tm htm
+    obtain ⟨i, hi, rfl⟩ := List.getElem_of_mem htm
+    exact G10.applyStep_inv i _ seq _ (hstep i hi) hinv
+  have := G10.foldAdd_forge_empty temps _ r seq.data.length σ hfold rfl (fun tm htm => (hshape tm htm).1) hσ
+    ⟨rfl, hinv.2⟩ (fun tm htm => (hshape tm htm).2) d f t fts hf (by
+      intro hnil; rw [hnil] at hl; simp at hl; omega)
+  rw [this]
+  simp only [G10.shiftedFrom, Nat.zero_add]
+
+/-- **`repeatAndVary_forge` position by position**: every forged copy has `len(seq)` positions, and
+    position `m·len(seq) + k + 1` of the forged result (index `m·len(seq) + k`) is position `k + 1`
+    of the forged `m`-th varied copy with its label moved by `m·len(seq)` and its positive goto /
+    jump target retargeted by as much — same arrays, same filters, same repetitions and triggers -/
+theorem repeatAndVary_forge_position (seq : Sequence) (lens : List Nat) (poss : List ℤ) (vars : List Variation)
+    (r : Sequence) (h : repeatAndVarySequence seq lens poss vars = .ok r) (hinv : C16.SeqInv seq) (d f t : Bool) :
+    ∃ (M : ℕ) (temps : List Sequence), sweepSteps lens vars = .ok M ∧ temps.length = M ∧
+      (∀ i (hi : i < temps.length), applyStep i (poss.zip vars) seq.copy = .ok temps[i]) ∧
+      ∀ fts : List (List (ℕ × ForgedPos)), List.Forall₂ (fun tm ft => tm.forge d f t = .ok ft) temps fts →
+        ∀ m (hm : m < fts.length) k (hk : k < fts[m].length),
+          fts[m].length = seq.data.length ∧
+          (r.forge d f t).map (fun out => out[m * seq.data.length + k]?) =
+            .ok (some (C16.shiftPos (m * seq.data.length) fts[m][k])) := by
+  obtain ⟨M, temps, hs, hl, hstep, hall⟩ := repeatAndVary_forge seq lens poss vars r h hinv d f t
+  refine ⟨M, temps, hs, hl, hstep, fun fts hf m hm k hk => ?_⟩
+  have hlen := G10.forall2_length_eq hf
+  have hM : 0 < M := by omega
+  have hft : ∀ i (hi : i < fts.length), fts[i].length = seq.data.length := by
+    intro i hi
+    have hi' : i < temps.length := by omega
+    have h1 := G10.forall2_getElem hf i hi' hi
+    rw [(forge_pos _ d f t _ h1).1]
+    exact (G10.applyStep_inv i _ seq _ (hstep i hi') hinv).1
+  refine ⟨hft m hm, ?_⟩
+  rw [hall fts hf hM]
+  simp only [Except.map]
+  congr 1
+  rw [G10.flatten_getElem_uniform _ seq.data.length ?_ m k (by rw [← hft m hm]; exact hk)]
+  · rw [List.getElem?_mapIdx]
+    simp [List.getElem?_eq_getElem hm, List.getElem?_eq_getElem hk]
+  · intro l hl'
+    obtain ⟨i, hi, rfl⟩ := List.getElem_of_mem hl'
+    simp only [List.getElem_mapIdx, List.length_map]
+    exact hft i (by simpa using hi)
+
+/-- **the result of `repeatAndVarySequence` is consistent** (`checkConsistency() == True`): every
+    varied copy passed the consistency check of `+`, a sweep step changes neither the channel list
+    nor the sample rates of an element, so all copies are over the same channels and every `+` of
+    the loop returned a consistent sequence (`C16.add_consistent`).  For zero steps the result is
+    the empty sequence with `seq`'s settings, which is consistent because `seq` has a sample rate. -/
+theorem repeatAndVary_consistent (seq : Sequence) (lens : List Nat) (poss : List ℤ) (vars : List Variation) (r : Sequence)
+    (h : repeatAndVarySequence seq lens poss vars = .ok r) : r.checkConsistency = .ok true := by
+  obtain ⟨M, temps, hc, hs, hl, hstep, hfold, _⟩ := repeatAndVary_spec seq lens poss vars r h
+  have hcons := G10.foldAdd_consistent_operands temps _ r hfold
+  obtain ⟨σ, hσ⟩ := G10.temps_sig seq (poss.zip vars) temps hstep hcons
+  have h0 : Sequence.checkConsistency ({ awgspecs := seq.awgspecs } : Sequence) = .ok true := by
+    obtain ⟨hsr, _⟩ := (C16.consistent_iff seq).mp hc
+    rw [C16.consistent_iff]
+    exact ⟨hsr, [], [], rfl, rfl, rfl, rfl, gapFree_nil⟩
+  exact (G10.foldAdd_consistent temps _ r σ hfold h0 (G10.sig_of_empty _ σ rfl) hσ).1
+
+/-- **`makeVaryingSequence`'s result forges position `j + 1` to the forge of the `j`-th varied element**:
+    whenever the returned sequence forges (any options), the output has one entry per step, and entry
+    `j` is an element position labelled `j + 1` with the default sequencing entry whose single content
+    entry holds the arrays of `varied base vars j` — the base element with every variation's `j`-th
+    value applied (`makeVarying_spec`, `makeVarying_values`) — after the delay pass (`delayedEl`:
+    the element itself when `d = false`) with the declared filters attached -/
+theorem makeVarying_forge (base : Element) (lens : List Nat) (vars : List Variation) (s : Sequence)
+    (h : makeVaryingSequence base lens vars = .ok s) (d f t : Bool) (out : List (ℕ × ForgedPos))
+    (hf : s.forge d f t = .ok out) :
+    ∃ m M, base.validate = .ok m ∧ sweepSteps lens vars = .ok M ∧ out.length = M ∧
+      ∀ j (hj : j < out.length), ∃ e' arr c,
+        delayedEl s d (varied { base with cache := some m } vars j) = .ok e' ∧ e'.getArrays t = .ok arr ∧
+        s.withFilters f arr = .ok c ∧
+        out[j] = (j + 1, { sequencing := defaultSeqEl, isSub := false, content := [(1, c, none)] }) := by
+  obtain ⟨m, M, hv, hs, hget, _, _⟩ := makeVarying_spec base lens vars s h
+  obtain ⟨M', hs', _, hlen, hseq⟩ := makeVarying_keys base lens vars s h
+  rw [hs] at hs'
+  cases hs'
+  obtain ⟨hol, hpos⟩ := forge_pos s d f t out hf
+  refine ⟨m, M, hv, hs, by rw [hol, hlen], fun j hj => ?_⟩
+  have hjM : j < M := by rw [hol, hlen] at hj; exact hj
+  obtain ⟨en, hen, hfp⟩ := hpos j hj
+  rw [hget j hjM] at hen
+  cases hen
+  obtain ⟨e', arr, c, sq, h1, h2, h3, h4, h5⟩ := forgePos_element s d f t (j + 1) _ _ hfp
+  have hsq : Dict.get? s.sequencing ((j + 1 : ℕ) : ℤ) = some defaultSeqEl := by
+    rw [hseq]
+    exact G10.get_const_map _ _ _ ((mem_oneTo M _).mpr (by push_cast; omega))
+  rw [hsq] at h4
+  cases h4
+  exact ⟨e', arr, c, h1, h2, h3, h5⟩
+
+/-! #### non-vacuity -/
+
+/-- the example sequence with a positive goto at its second position -/
+def exSeqG : Sequence := (SeqCore.setSequencing exSeq 2 (fun q => { q with goto := 1 })).st
+
+/-- the example sequences are built through the public interface, hence meet the hypothesis
+    `C16.SeqInv` of `repeatAndVary_forge` -/
+theorem exSeqG_built : C16.Built exSeqG :=
+  .setSequencing _ _ _ (.addElement _ _ _ (.addElement _ _ _ (.setSpec _ _ _ .empty)))
+
+example : C16.SeqInv exSeqG := C16.built_inv _ exSeqG_built
+
+/-- the remaining hypotheses of `repeatAndVary_forge` on the example: the tool returns, there are two
+    steps, and both varied copies forge -/
+example :
+    (repeatAndVarySequence exSeqG [3, 3, 3, 3, 3] [1, 2, 2] exVars).toOption.isSome = true ∧
+    sweepSteps [3, 3, 3, 3, 3] exVars = .ok 2 ∧
+    ((applyStep 0 ([1, 2, 2].zip exVars) exSeqG.copy).bind (fun tm => tm.forge false false false)).toOption.isSome = true ∧
+    ((applyStep 1 ([1, 2, 2].zip exVars) exSeqG.copy).bind (fun tm => tm.forge false false false)).toOption.isSome = true := by
+  decide +kernel
+
+/-- ... and the conclusion on that instance: four positions; the goto 1 of the copy's second position
+    is still 1 in the first copy and has become 3 in the second; the result is consistent -/
+example :
+    ((repeatAndVarySequence exSeqG [3, 3, 3, 3, 3] [1, 2, 2] exVars).bind (fun s => s.forge false false false)).map
+      (fun out => out.map (fun r => (r.1, r.2.sequencing.goto))) = .ok [(1, 0), (2, 1), (3, 0), (4, 3)] ∧
+    (repeatAndVarySequence exSeqG [3, 3, 3, 3, 3] [1, 2, 2] exVars).bind Sequence.checkConsistency = .ok true := by
+  decide +kernel
+
+/-- the hypothesis of `makeVarying_forge` is satisfiable: the swept sequence forges -/
+example : ((makeVaryingSequence exBase [3, 3, 3, 3] exVars).bind (fun s => s.forge true true false)).map List.length =
+    .ok 2 := by decide +kernel
 
 end BB.C17
